@@ -251,7 +251,8 @@ def mon_C08(ctx, ops, states):
     bad = []
     for i, o, pre, st, cfg in w.steps():
         if o['kind'] == 'init' and st['out'] == 'true' and state_reset(o, pre, o['rel']):
-            ok = isinstance(st['pj'], dict) and st['pj'] == dict(lb=None, nb=None, cb=None, bad=[]) and \
+            # (no patches_state.json at all is an empty state too: the property is about what survives, not about files)
+            ok = (st['pj'] == 'M' or (isinstance(st['pj'], dict) and st['pj'] == dict(lb=None, nb=None, cb=None, bad=[]))) and \
                 not st['arts'] and isinstance(st['sj'], dict) and st['sj'] == dict(rel=o['rel'], evq=[])
             if not ok:
                 bad.append((i, 'C08: state of another release survived the first init: %s' % st['raw'][:200]))
